@@ -950,6 +950,45 @@ def gen_emptycli(rng, tables):
     return cases
 
 
+INLINE_STR = ["pa ;ss", "a # b", "x #y", "#lead", ";lead", "x;y", "x#y", "ACME Bank ; retail", "id #42", "a  #  b ; c"]
+INLINE_IDS = [["12 #a", "34"], ["5 ;6"], ["7", "8 # joint", "9"], ["#1"], ["a;b", "c #d"]]
+
+
+def gen_inlinec(rng, tables):
+    """values that look like they carry an inline comment (" #x", " ;x", "#lead"): configparser's default has no inline comments, the
+    whole text is the value - in the user's file, in the FI database, and after --write"""
+    conf = dict(tables["configurable"])
+    cases = []
+    uu = lambda i: ["GEN-UUID-%da" % i, "GEN-UUID-%db" % i]
+    str_opts = [o for o, ty in conf.items() if ty == "TStr" and o in STR_FLAGS and o not in ("clientuid", "ofxhome", "url")]
+    list_opts = [o for o, ty in conf.items() if ty == "TList"]
+    # precedence: the value sits in the user's file or in the FI database
+    for i, v in enumerate(INLINE_STR + INLINE_IDS):
+        for where in ("user", "fi"):
+            o = rng.choice(list_opts if isinstance(v, list) else str_opts)
+            text = ", ".join(v) if isinstance(v, list) else v
+            fi_ = [("url", "https://fi.example.com/ofx")] + ([(o, text)] if where == "fi" else [])
+            ui = [(o, text)] if where == "user" else []
+            spec = {o: {where: v}, "url": {"fi": "https://fi.example.com/ofx"}, "__oh__": {}}
+            cli = {"dryrun": True} if rng.random() < 0.5 else {}
+            cases.append({"fi": base_fi("srv", fi_), "user": mk_file([("srv", ui)]) if ui else None, "oh": {},
+                          "runs": [{"argv": argv_of("stmt", "srv", cli), "uuids": uu(0)}],
+                          "_spec": spec, "_cli": [cli], "_server": "srv", "_opt": o, "_kind": "inlinec"})
+    # persistence: the value comes from the command line and is saved
+    for v in INLINE_STR + INLINE_IDS:
+        o = rng.choice(list_opts if isinstance(v, list) else str_opts)
+        cli_w = {o: v, "write": True}
+        clis = [cli_w, {}, {"write": True}, {}]
+        cases.append({"fi": base_fi("srv", [("url", "https://fi.example.com/ofx")]), "user": None, "oh": {},
+                      "runs": [{"argv": argv_of("stmt", "srv", c), "uuids": uu(j)} for j, c in enumerate(clis)],
+                      "_cli": clis, "_server": "srv", "_opt": o, "_kind": "inlinec"})
+    cli_w = {"url": "https://ofx.example.com/ofx #frag ;x", "write": True}
+    cases.append({"fi": mk_file([("NAMES", [("1", "x")])]), "user": None, "oh": {},
+                  "runs": [{"argv": argv_of("stmt", "srv", c), "uuids": uu(j)} for j, c in enumerate([cli_w, {}])],
+                  "_cli": [cli_w, {}], "_server": "srv", "_opt": "url", "_kind": "inlinec"})
+    return cases
+
+
 def recase(rng, name):
     """the same nickname in another letter case (None when it has no letters)"""
     for cand in (name.upper(), name.capitalize(), name.swapcase(), name.lower()):
@@ -1076,7 +1115,7 @@ def check_property(case, res, orc, fail):
                 fail("argparse:namespace-differs-from-command-line", "run %d: argv %r gave %r, meant %r" % (i, r["argv"], got, want), dict(rp, run=i))
     # 1. precedence on the first run (the files are as generated)
     spec = case.get("_spec")
-    if spec is not None and kind in ("sweep", "random", "casenick", "emptycli") and "eff" in runs[0]:
+    if spec is not None and kind in ("sweep", "random", "casenick", "emptycli", "inlinec") and "eff" in runs[0]:
         r, cli = runs[0], clis[0]
         exp = orc.expected_effective(spec, dict(cli, server=server))
         exp_url = exp["url"][0]
@@ -1213,6 +1252,7 @@ def run(rep, tier, rng):
     cases += gen_libdefault(rng, tables, None if thorough else 20)
     cases += gen_casenick(rng, tables, 200 if thorough else 12)
     cases += gen_emptycli(rng, tables)
+    cases += gen_inlinec(rng, tables)
     cases += gen_wild(rng, tables, 3000 if thorough else 300)
     cases += gen_malformed(rng, tables, 3000 if thorough else 300)
     cases += gen_realfi(rng, tables, 400 if thorough else 40)
@@ -1223,7 +1263,7 @@ def run(rep, tier, rng):
     rep.extra["exhaustive_part"] = "source subsets: all 2^5 subsets of {command line, user section, FI db section, OFX Home, user [DEFAULT]} for each of the %d CONFIGURABLE options and 7 command-line-only ones" % len(tables["configurable"])
     rep.rule = ("corpus first; sweep: every option x all 32 subsets of the five places a value can come from, distinct values per place; persist: every CONFIGURABLE option x values of its domain "
                 "(URLs over all URL-legal characters incl. %, account lists of 1..20 ids, integers, flags) written with --write and re-read by a second run; random: 1..5 runs on one file with "
-                "several options from random places; reset / list-quoting / [DEFAULT] probes (known findings); libdefault: nicknames whose FI section (bundled fi.cfg and generated) disagrees with a built-in default, the command line gives the built-in default or the FI value, --write, then a run without it; emptycli: every string option given as '' on the command line while user file / FI database / OFX Home set it; casenick: nicknames differing only in letter case from a section of the generated / bundled FI database or of the user's file (precedence among decoy sections, and write-then-rerun); wild: out-of-domain values and nicknames (DEFAULT, URL as nickname, blanks, quotes, newlines); "
+                "several options from random places; reset / list-quoting / [DEFAULT] probes (known findings); libdefault: nicknames whose FI section (bundled fi.cfg and generated) disagrees with a built-in default, the command line gives the built-in default or the FI value, --write, then a run without it; inlinec: values containing ' #', ' ;', '#lead' (inline-comment look-alikes) in the user file, the FI database and saved by --write, strings and account lists; emptycli: every string option given as '' on the command line while user file / FI database / OFX Home set it; casenick: nicknames differing only in letter case from a section of the generated / bundled FI database or of the user's file (precedence among decoy sections, and write-then-rerun); wild: out-of-domain values and nicknames (DEFAULT, URL as nickname, blanks, quotes, newlines); "
                 "malformed: damaged user / FI files; realfi: nicknames of the bundled fi.cfg. Each run = fresh module state, real argparse, merge_config, write_config when --write. "
                 "non-trivial = every run of the case produced a merged mapping; distinct by full case content")
 
